@@ -157,6 +157,27 @@ func (d *Driver) Apply(e Event) StepOut {
 			return d.relevantTx(ns, d.U.Get(e.T), nil)
 		case "confirm":
 			return d.relevantTx(ns, d.U.Get(e.T), blockMeta(e))
+		case "redeliver":
+			// the notification applied again through the store API
+			// without the wallet's early return
+			t := d.U.Get(e.T)
+			var bm *wtxmgr.BlockMeta
+			if e.H >= 0 {
+				bm = blockMeta(e)
+			}
+			rec, err := wtxmgr.NewTxRecordFromMsgTx(t.msg, Epoch)
+			if err != nil {
+				return err
+			}
+			if err := d.Store.InsertTx(ns, rec, bm); err != nil {
+				return err
+			}
+			for _, c := range t.Creds {
+				if err := d.Store.AddCredit(ns, rec, bm, uint32(c[0]), c[1] != 0); err != nil {
+					return err
+				}
+			}
+			return nil
 		case "disconnect":
 			return d.Store.Rollback(ns, int32(e.H))
 		case "abandon":
